@@ -4,46 +4,10 @@ import json, os
 ROOT = os.path.dirname(os.path.dirname(os.path.abspath(__file__)))
 PROPS = [json.loads(l)['id'] for l in open(os.path.join(ROOT, 'properties.jsonl'))]
 
-CLAIMED = {
- 'C05': dict(
-    text='Proof. Theorem C05_full (Lean 4, all token lists, both error modes, any fuel): if the model of sly Parser.parse '
-         'accepts then the returned value is a derivation tree of the grammar whose frontier is the complete token list and no '
-         'error recovery took place; instantiated for the LR tables of all three dialects, which are regenerated from the live '
-         'parser classes on every run and whose stack-shape certificate is evaluated by the Lean kernel (decide +kernel). '
-         'The driver model is tied to sly/yacc.py by a differential stream (reduction sequences, error state, bad token, expected set).',
-    note='Trusted: Lean kernel; translator transcription of tables (cross-checked by the correspondence stream); hand model of Parser.parse '
-         'and the two error() callbacks; lexing and the `re.sub` strip in parse_sql are outside the theorem (covered by the impl-level Earley oracle).',
-    technique='Lean 4 theorem over translator-generated LR tables (kernel-checked certificate) + model/implementation correspondence',
-    ref='DESIGN.md §5 C05'),
- 'C02': dict(
-    text='Proof (partial). Theorem C02_driver: for the regenerated tables of each dialect the model of the SLY runtime never reaches a '
-         'stuck state (no IndexError/KeyError/internal parser error in Parser.parse), a None result always carries error_info and the bad-token '
-         'index is in range — for all token lists. Semantic actions, AST constructors, ErrorHandling and termination are NOT theorems: they are '
-         'covered by a crash oracle over corpus, mutants, grammar-derived sentences and random unicode text; 13 crash sites found on the pinned tree are known findings.',
-    note='Trusted: as C05. The theorem is about the driver only; the crash search is bounded by its generators.',
-    technique='Lean 4 theorem (driver never stuck, over kernel-validated tables) + correspondence + impl-level crash search',
-    ref='DESIGN.md §5 C02'),
-
- 'C03': dict(
-    text='Proof. Theorem C03_full (Lean 4, all fragment expressions of any size with any user parentheses): an operator-precedence machine whose only '
-         'decision function is SLY resolve over the dialect precedence data re-groups the minimally parenthesised print of every expression exactly as the '
-         'stratified SQL grammar does (left-assoc chains, NOT/AND/OR/comparison/arithmetic strata, BETWEEN..AND, unary minus), instantiated for the three dialects '
-         'via the kernel-evaluated obligation sqlOrder on precedence data regenerated from the live grammars; and phi3b: in every state of the real LALR tables '
-         'with expr on top the action on every fragment operator equals the machine\'s decision (kernel-evaluated on the regenerated tables, all states).',
-    note='Trusted: Lean kernel; translator of Precedence/Production.prec and LR tables; the stratified reference grouping (OPM.addParens) as the reading of '
-         '"as SQL defines" (validated against sqlite3 by evaluation on every run); the simulation between OPM.parse and the LR driver beyond the per-state '
-         'conformance obligation is covered by the expression correspondence stream (6 contexts), not proved.',
-    technique='Lean 4 round-trip theorem for an operator-precedence machine + kernel-evaluated precedence/table-conformance obligations on translator-generated data',
-    ref='DESIGN.md §5 C03'),
- 'C20': dict(
-    text='Proof (partial). Theorems C20_noninterference / C20_result_schedule_independent (all schedules, all numbers of calls): calls that step private '
-         'state and only read a shared store get results independent of the interleaving; C20_lazy_global: history independence of the lazily filled reserved-word set. '
-         'That parse_sql / plan_query / SqlalchemyRender have this structure is checked on the real code on every run (fresh objects, class-level state hashes, '
-         'caller inputs reused across calls, threads with a shared catalog, shuffled histories with failing calls, several PYTHONHASHSEED processes incl. error messages and canonical tables).',
-    note='Trusted: the structural assumptions are checked by execution, not proved; byte-code interleavings are sampled; finitely many hash seeds.',
-    technique='Lean 4 non-interference theorem over schedules + run-time checks of its assumptions on the implementation',
-    ref='DESIGN.md §5 C20'),
-}
+CLAIMED = {}
+for _f in sorted(os.listdir(os.path.join(ROOT, 'manifest.d'))):
+    if _f.endswith('.json'):
+        CLAIMED[_f[:-5]] = json.load(open(os.path.join(ROOT, 'manifest.d', _f)))
 
 NOT_YET = 'not claimed yet in this round: the Lean theorem for this property is not finished (never claimed on testing alone); see DESIGN.md §5'
 
